@@ -110,6 +110,28 @@ func (r *Remote) getPendingChan(key string) chan Message {
 	return pending.msgChan
 }
 
+// setWaiting flags (or unflags) the pending entry for key as having a caller
+// blocked on it, creating the entry if a caller is about to wait on it.
+func (r *Remote) setWaiting(key string, waiting bool) {
+	r.mu.Lock()
+	defer r.mu.Unlock()
+	if r.pending == nil {
+		r.pending = map[string]pendingMsg{}
+	}
+	pending, ok := r.pending[key]
+	if !ok {
+		if !waiting {
+			return
+		}
+		pending = pendingMsg{
+			msgChan:   make(chan Message, 1),
+			timestamp: time.Now(),
+		}
+	}
+	pending.waiting = waiting
+	r.pending[key] = pending
+}
+
 func (r *Remote) handleRequest(msg *Message) error {
 	ctx := context.WithValue(context.Background(), ctxService, r)
 	resp := r.Server.Handle(ctx, msg)
@@ -137,6 +159,7 @@ func (r *Remote) Serve() error {
 // end-to-end solution.
 func (r *Remote) receive(ctx context.Context, ID json.RawMessage) (*Message, error) {
 	key := string(ID)
+	r.setWaiting(key, true)
 	select {
 	case msg := <-r.getPendingChan(key):
 		r.mu.Lock()
@@ -144,6 +167,8 @@ func (r *Remote) receive(ctx context.Context, ID json.RawMessage) (*Message, err
 		r.mu.Unlock()
 		return &msg, nil
 	case <-ctx.Done():
+		// Nobody is going to collect a late reply: let it be discarded.
+		r.setWaiting(key, false)
 		return nil, ctx.Err()
 	}
 }
@@ -157,7 +182,11 @@ func (r *Remote) Call(ctx context.Context, result interface{}, method string, pa
 	if err != nil {
 		return err
 	}
+	// Reserve the reply slot before the request leaves, so that even a reply
+	// that overtakes us is parked where it cannot be discarded.
+	r.setWaiting(string(req.ID), true)
 	if err = r.Codec.WriteMessage(req); err != nil {
+		r.setWaiting(string(req.ID), false)
 		return err
 	}
 	resp, err := r.receive(ctx, req.ID)
